@@ -31,12 +31,12 @@ from vlib import Inconclusive, log
 SIZES = [0, 1, 16383, 16384, 16385]
 MB = 3 * 1024 * 1024 + 17
 
-DESIGN_CFGS = [("MC_localfs.cfg", "ok"), ("MC_localfs_nonewdirsync.cfg", "ok"),
+DESIGN_CFGS = [("MC_localfs.cfg", "ok"), ("MC_localfs_nonewdirsync.cfg", "ok"), ("MC_localfs_factor.cfg", "ok"),
                ("MC_localfs_nofilesync.cfg", "Atomic"), ("MC_localfs_nodirsync.cfg", "Durable"),
                ("MC_localfs_noparentsync.cfg", "Durable"), ("MC_localfs_renamefirst.cfg", "Atomic"),
                ("MC_localfs_inplace.cfg", "Atomic")]
 
-VALID_KEYS = ["x", "d1/x", "d1/d2/d3/x", "pre/x", "pre/sub/x", "a b/\u00fc", "a\\b", "...", ".hidden", "-",
+VALID_KEYS = ["x", "d1/x", "d1/d2/d3/x", "pre/x", "pre/sub/x", "pre", "x/under", "a b/\u00fc", "a\\b", "...", ".hidden", "-",
               "d1/.x", "d1/d2/y", "pre/new/deep/z", "checkpoint", "tile/data/000", "x.y/z"]
 INVALID_KEYS = ["", ".", "..", "../x", "../../x", "d1/../x", "d1/../../x", "/x", "/", "d1//x", "./x", "d1/./x",
                 "d1/", "x\x00y", "\x00", "d1/x\x00", "d1/..", "\xff", "../tmp/x", "d1/../../../x", "//", "/../x"]
@@ -194,12 +194,12 @@ def build_scenarios(tier, rng):
         steps = [up(k, C(60, 9), i % 2 == 0), up(k2, C(61, 16385), i % 2 == 1), fe(k), fe(k2)]
         out.append(scenario("freshdir/%d" % i, steps, fresh=1 + i % 2, dump=not quick and i < 8))
     # concurrent readers and writers of one mutable key
-    for i in range(3 if quick else 40):
+    for i in range(3 if quick else 30):
         k = rng.choice(["x", "d1/x", "pre/x"])
         big = rng.choice([16385, 300000, MB]) if i % 3 == 0 else rng.choice([1, 100, 16384])
         writers = [[C(70 + w * 10 + j, rng.choice([1, 16384, big])) for j in range(3)] for w in range(2)]
         steps = [up(k, C(69, 5), False),
-                 {"op": "conc", "key_b64": kb(k), "key": k, "writers": writers, "readers": 2, "reads": 12},
+                 {"op": "conc", "key_b64": kb(k), "key": k, "writers": writers, "readers": 2, "reads": 8},
                  fe(k)]
         out.append(scenario("conc/%d" % i, steps, seq=False))
     # bases of the crash-then-re-upload compositions (thorough): dump every crash state
@@ -267,7 +267,7 @@ def run_scenario(helper, wd, idx, sc, tree=None):
                 extra.append(c)
     script = {"root": root, "dir": os.path.join(root, *conf), "markers": os.path.join(d, "markers.ndjson"),
               "steps": [{k: v for k, v in s.items() if k != "key"} for s in sc["steps"]], "extra": extra,
-              "cpu_ms": 2000, "wall_ms": 240000}
+              "cpu_ms": 20000 if any(x["op"] == "conc" for x in sc["steps"]) else 2000, "wall_ms": 240000}
     sp = os.path.join(d, "script.json")
     json.dump(script, open(sp, "w"))
     st = os.path.join(d, "out.strace")
@@ -315,9 +315,13 @@ def run_all(helper, wd, scs, start=0, trees=None):
 
 # --------------------------------------------------------------------------- TLC
 
-def validate(wd, traces, tagname, shards=4):
+def validate(wd, traces, tagname, shards=None):
     """Runs LocalFSTrace over the scenarios (split over several TLC processes).
     Returns (scenario reports, crash reports, crash states, states, transitions)."""
+    # the replay of one corpus is a single path (only the power-loss successors
+    # fan out), so parallelism comes from splitting the corpus
+    if shards is None:
+        shards = max(1, min(vlib.NCPU, 16, sum(len(t) for t in traces) // 600))
     shards = max(1, min(shards, len(traces)))
     parts = [[] for _ in range(shards)]
     order = sorted(range(len(traces)), key=lambda i: -len(traces[i]))
@@ -340,7 +344,7 @@ def validate(wd, traces, tagname, shards=4):
         swd = p + ".d"
         os.makedirs(swd, exist_ok=True)
         return vlib.tlc("LocalFSTrace.tla", "LocalFSTrace.cfg", swd, workers=max(1, vlib.NCPU // shards),
-                        env={"VERIF_TRACE": p}, timeout=3000, xmx="6g")
+                        env={"VERIF_TRACE": p}, timeout=3400, xmx="2g", xss="256m")
     with concurrent.futures.ThreadPoolExecutor(max_workers=shards) as ex:
         outs = list(ex.map(one, files))
     reps, crashes, cstates = [], [], []
@@ -413,7 +417,9 @@ def design_check(wd):
         if not ok:
             open(os.path.join(vlib.WORK, "localfs-design-%s.out" % cfg), "w").write(out)
         else:
-            json.dump(r, open(cpath, "w"))
+            tmp = cpath + ".tmp%d" % os.getpid()
+            json.dump(r, open(tmp, "w"))
+            os.replace(tmp, cpath)
         shutil.rmtree(td, ignore_errors=True)
         return r
     with concurrent.futures.ThreadPoolExecutor(max_workers=4) as ex:
@@ -437,7 +443,7 @@ def run(prop, tier):
         scs = build_scenarios(tier, rng)
         only = os.environ.get("VERIF_ONLY")
         if only:
-            base_only = only.split("@")[0].replace("crashre/", "base/") if only.startswith("crashre/") else only
+            base_only = only[len("crashre/"):].split("@")[0].replace(":", "/") if only.startswith("crashre/") else only
             scs = [s for s in scs if s["name"] == base_only] or scs
         traces = run_all(helper, wd, scs)
         t1 = time.time()
@@ -465,7 +471,7 @@ def run(prop, tier):
                         c = content_from_id(i, n)
                         cut = -1 if stt == "full" else n // 2 + 3
                         mat.append((path, kind, c, cut))
-                    sc = {"name": tag("crashre/%s@%d#%s" % (name[5:], line, hashlib.sha256(key.encode()).hexdigest()[:6]), []),
+                    sc = {"name": "crashre/%s@%d#%s" % (name.replace("/", ":"), line, hashlib.sha256(key.encode()).hexdigest()[:6]),
                           "steps": follow_up(base, random.Random(int(hashlib.sha256(("%d %s %d" % (sd, name, line)).encode()).hexdigest()[:8], 16))), "seq": True, "dump": False,
                           "fresh": 0, "pre": [],
                           "carry": [{"path": p, "c": {"id": i, "len": n, "st": stt}} for p, i, n, stt in carry]}
@@ -549,7 +555,7 @@ def run(prop, tier):
             "power-loss semantics are the model's (ALICE-style worst case), not a particular file system's",
             "strace reports the system calls of the helper process completely and in order of completion",
             "written data is identified by its first 32 bytes and its length (contents of a scenario are made distinct in these)",
-            "an operation that burned 2 s of CPU without returning is counted as not returning",
+            "an operation during which the helper process burned 2 s of CPU (20 s with concurrent operations) without returning is counted as not returning",
             "TLC, CommunityModules (Json, IOUtils), strace, ext4 of the sandbox"])
         vlib.finish(prop, violations, sorted(set(known)), inconclusive)
     except Inconclusive as e:
